@@ -118,6 +118,36 @@ example : ∀ a ∈ [[97, 32, 98], [1, 102, 0xff, 0xc2, 0xa0], ([] : Bytes)], Nu
   unfold NulFree; decide
 example : quote [97, 0, 98] = .error 1 := by decide
 
+/-! ## "any variable value": non-string values
+
+`shellQuote` / `q` take any value and quote it the way the template engine prints it (fix
+0d1f4ef; before, a YAML number / boolean / list failed with `wrong type for value`).
+The printed form is a byte string, so the statement is `C19_shellQuote` applied to it. -/
+
+/-- the values a Taskfile variable can hold that are not strings, and what `{{.X}}` prints for them -/
+inductive Scalar where
+  | nat (n : Nat) | negNat (n : Nat) | bool (b : Bool) | printed (s : Bytes)    -- `printed`: floats, lists, maps — whatever `fmt.Sprint` gives
+deriving Repr
+
+def natDigits : Nat → Nat → Bytes
+  | 0, _ => [48]
+  | fuel + 1, n => if n < 10 then [(48 + n).toUInt8] else natDigits fuel (n / 10) ++ [(48 + n % 10).toUInt8]
+
+def Scalar.print : Scalar → Bytes
+  | .nat n => natDigits n n
+  | .negNat n => 45 :: natDigits n n
+  | .bool true => [116, 114, 117, 101]
+  | .bool false => [102, 97, 108, 115, 101]
+  | .printed s => s
+
+/-- **`{{shellQuote .N}}` for a non-string value**: one word, the value as the engine prints it -/
+theorem C19_shellQuote_scalar (v : Scalar) (h : NulFree v.print) :
+    ∃ q, quote v.print = .ok q ∧ words q = some [v.print] := C19_shellQuote v.print h
+
+example : (Scalar.nat 42).print = [52, 50] ∧ (Scalar.negNat 7).print = [45, 55] ∧ (Scalar.nat 0).print = [48] := by decide
+example : NulFree (Scalar.nat 42).print := by unfold NulFree; decide
+example : (quote (Scalar.bool true).print).toOption.bind words = some [[116, 114, 117, 101]] := by decide
+
 /-! ## The template passes (DESIGN §8 row 26): full statement, counterexample, partial -/
 
 /-- C19 at full strength for forwarded arguments: whatever the template engine does with
@@ -238,7 +268,7 @@ theorem C19_init_frame (fs : FS) (r : InitResult) (q : Bytes)
 /-- **The path comes from the first positional argument**: further positional arguments
 and everything after `--` play no role. -/
 theorem C19_init_first_positional (fs : FS) (wd a : Bytes) (rest : List Bytes) :
-    initRun fs wd (a :: rest) none = initTaskfile fs (initArgPath wd [a]) := by
+    initRun fs wd (a :: rest) none = initTaskfile fs (initArgPath fs wd [a]) := by
   simp [initRun, argsGet, initArgPath]
 
 theorem C19_init_after_dash_ignored (fs : FS) (wd : Bytes) (argv : List Bytes) (d : Nat)
@@ -255,15 +285,38 @@ theorem C19_init_default (fs : FS) (wd : Bytes) (hwd : stat fs wd = some .dir)
     initRun fs wd [] none = .written (smartJoin wd defaultTaskfile) := by
   simp [initRun, argsGet, initArgPath, initTaskfile, hwd, hfree, writeNew, hpar]
 
-/-- a directory argument: `Taskfile.yml` inside it -/
-theorem C19_init_dir (fs : FS) (wd a : Bytes) (rest : List Bytes) (hext : isExtOnly a = false)
+/-- **A directory argument: `Taskfile.yml` inside it** — whatever the argument looks like:
+`.`, `sub/.`, `..`, a hidden directory `.config`.  (Before the repairs 8c188ee / 08da1a6
+this needed `isExtOnly a = false`, which hid `task --init .` → `./Taskfile.` and
+`task --init .config` → `./Taskfile.config`.) -/
+theorem C19_init_dir (fs : FS) (wd a : Bytes) (rest : List Bytes)
     (hd : stat fs (smartJoin wd a) = some .dir)
     (hfree : stat fs (smartJoin (smartJoin wd a) defaultTaskfile) = none)
     (hpar : stat fs (dir (smartJoin (smartJoin wd a) defaultTaskfile)) = some .dir) :
     initRun fs wd (a :: rest) none = .written (smartJoin (smartJoin wd a) defaultTaskfile) := by
-  simp [initRun, argsGet, initArgPath, hext, initTaskfile, hd, hfree, writeNew, hpar]
+  simp [initRun, argsGet, initArgPath, initTaskfile, hd, hfree, writeNew, hpar]
 
-/-- a file-name argument: exactly that file (relative to the working directory) -/
+/-- the names `.` and `..` (last component of any path) are never "an extension only" -/
+theorem C19_dot_names_are_not_extensions (a : Bytes) (h : base a = [46] ∨ base a = dotdot) :
+    isExtOnly a = false := by
+  rcases h with h | h <;> simp [isExtOnly, h]
+
+/-- the slip of the predicate as first written (`Base p == Ext p`), machine-checked:
+`.` and `sub/.` counted as extensions -/
+theorem C19_isExtOnly_old_rule_counterexample :
+    isExtOnlyOld [46] = true ∧ isExtOnlyOld [115, 117, 98, 47, 46] = true ∧
+    isExtOnly [46] = false ∧ isExtOnly [115, 117, 98, 47, 46] = false := by decide
+
+/-- **An extension-only argument** `.ext` / `d/.ext` that does not name an existing
+directory: `Taskfile.ext` in that directory, subject to the rules for a file name. -/
+theorem C19_init_ext (fs : FS) (wd a : Bytes) (rest : List Bytes) (hext : isExtOnly a = true)
+    (hnd : stat fs (smartJoin wd a) ≠ some .dir) :
+    initRun fs wd (a :: rest) none =
+      initTaskfile fs (smartJoin wd (smartJoin (dir a) (taskfileStem ++ ext a))) := by
+  simp [initRun, argsGet, initArgPath, hext, hnd]
+
+/-- a file-name argument: exactly that file (relative to the working directory); the
+side condition is needed: `.yaml` means `Taskfile.yaml` (`C19_init_ext`) -/
 theorem C19_init_file (fs : FS) (wd a : Bytes) (rest : List Bytes) (hext : isExtOnly a = false)
     (hfree : stat fs (smartJoin wd a) = none)
     (hpar : stat fs (dir (smartJoin wd a)) = some .dir) :
@@ -293,6 +346,16 @@ example : initRun fs0 [47, 119] [[46, 121, 97, 109, 108]] none =
 -- task --init exist.yml      → refused
 example : initRun fs0 [47, 119] [[101, 120, 105, 115, 116, 46, 121, 109, 108]] none =
     .exists_ [47, 119, 47, 101, 120, 105, 115, 116, 46, 121, 109, 108] := by decide
+-- task --init .              → /w/Taskfile.yml  (was /w/Taskfile.)
+example : initRun fs0 [47, 119] [[46]] none = .written [47, 119, 47, 84, 97, 115, 107, 102, 105, 108, 101, 46, 121, 109, 108] := by decide
+-- task --init sub/.          → /w/sub/Taskfile.yml
+example : initRun fs0 [47, 119] [[115, 117, 98, 47, 46]] none =
+    .written [47, 119, 47, 115, 117, 98, 47, 84, 97, 115, 107, 102, 105, 108, 101, 46, 121, 109, 108] := by decide
+-- task --init .hid  (a directory) → /w/.hid/Taskfile.yml  (was /w/Taskfile.hid)
+example : initRun (([47, 119, 47, 46, 104, 105, 100], .dir) :: fs0) [47, 119] [[46, 104, 105, 100]] none =
+    .written [47, 119, 47, 46, 104, 105, 100, 47, 84, 97, 115, 107, 102, 105, 108, 101, 46, 121, 109, 108] := by decide
+-- non-vacuity of C19_init_dir for the names the old hypothesis excluded
+example : stat fs0 (smartJoin [47, 119] [46]) = some .dir ∧ isExtOnlyOld [46] = true := by decide
 -- task --init missing/x.yml  → error, nothing written
 example : initRun fs0 [47, 119] [[109, 47, 120, 46, 121, 109, 108]] none = .error := by decide
 -- task --init -- x.yml       → the argument after `--` is not the path
